@@ -17,10 +17,19 @@ def rand_name(rng):
 def gen_fields(rng, boundary, nmax=5):
     n = rng.choice([0, 1, 1, 2, 3, nmax])
     names = [rand_name(rng) for _ in range(max(1, n // 2 + 1))]
+    if rng.random() < 0.12:
+        names[0] = ''          # the empty name is a name like any other (no quote, no line break in it)
+    kinds = None
+    if rng.random() < 0.1:
+        # one name carried by several text parts AND several uploads, in any order
+        n = rng.choice([4, 5])
+        names = names[:1]
+        kinds = [True, True, False, False, rng.random() < 0.5][:n]
+        rng.shuffle(kinds)
     fs = []
-    for _ in range(n):
+    for _i in range(n):
         name = rng.choice(names)
-        if rng.random() < 0.5:
+        if (kinds[_i] if kinds else rng.random() < 0.5):
             data = mplib.nasty_bytes(rng, rng.choice([0, 1, 3, 20, 200]), boundary)
             f = {'name': name, 'filename': rand_name(rng), 'data': data}
             if rng.random() < 0.7:
@@ -28,7 +37,9 @@ def gen_fields(rng, boundary, nmax=5):
             fs.append(f)
         else:
             k = rng.choice([0, 1, 4, 30])
-            val = ''.join(chr(rng.choice([120, 13, 10, 45, 233, 0x20AC, 32, 61, 59, 34])) for _ in range(k))
+            val = ''.join(chr(rng.choice([120, 13, 10, 45, 233, 0x20AC, 32, 61, 59, 34, 0xFEFF])) for _ in range(k))
+            if k and rng.random() < 0.1:
+                val = '\ufeff' + val[1:]     # a value that begins with U+FEFF begins with U+FEFF
             if (b'\r\n--' + boundary) in ('\r\n' + val + '\r\n--').encode('utf8')[:-4]:
                 val = 'v'
             fs.append({'name': name, 'value': val})
